@@ -1691,13 +1691,11 @@ def remove_velocity_sinex(sinex):
         # - update number of parameter estimates
         # - remove 'V' from parameter list 
         # - then write to file
-        old_creation_time = header[15:27]
         creation_time = set_creation_time()
-        header = header.replace(old_creation_time, creation_time)
+        header = header[:15] + creation_time + header[27:]
         old_num_params = int(header[60:65])
         num_params = int(old_num_params / 2)
-        header = header.replace(str(old_num_params), str(num_params))
-        header = header.replace('V', '')
+        header = header[:60] + '{:05d}'.format(num_params) + header[65:-1].rstrip()
         out.write(header)
         out.write("\n")
         del header
